@@ -23,7 +23,7 @@ git apply "$OUT/patch.diff" 2>/dev/null || patch -p1 -F3 -s < "$OUT/patch.diff" 
 echo "== demo with patch"
 "$@" > "$OUT/confirm_demo_patched.log" 2>&1; echo "exit=$?"; grep -E "^test result|panicked|FAILED|assert" "$OUT/confirm_demo_patched.log" | head -8
 echo "== repository suite with patch (demo removed)"
-git stash -q; git apply "$OUT/patch.diff" 2>/dev/null || patch -p1 -F3 -s < "$OUT/patch.diff"
+git checkout -q -- . ; git clean -fdq; git apply "$OUT/patch.diff" 2>/dev/null || patch -p1 -F3 -s < "$OUT/patch.diff"
 unshare -rn sh -c "ip link set lo up; cargo test --workspace --no-fail-fast --offline -j 8" > "$OUT/confirm_suite_patched.log" 2>&1; echo "exit=$?"
 grep -E "^test result" "$OUT/confirm_suite_patched.log" | awk '{p+=$4; f+=$6} END {print "passed="p" failed="f}'
 } >> "$LOG" 2>&1
